@@ -18,6 +18,10 @@ from props.engine_common import plain
 # variable, a condition that does not start with a function, a let binding and a field directive; rule 4 depends on the
 # blanks INSIDE a description (one probe description is a padded export with two blanks in it)
 RULES16 = '''# rules for explain / discover agreement
+# (variables that need a date, a source or a captured column cannot be evaluated for everything a command classifies - a
+#  description typed on the command line has none of them; each variable stands on its own)
+recent = date >= "2024-06-01" and year > 2000
+viaach = field.kind == "ACH" and source == "Card"
 big = amount > 1000
 
 [Refunds]
